@@ -39,6 +39,20 @@ def worker_ring(cfg, tier):
     inst, pad = cfg["inst"], cfg["pad"]
     obs = []
     nodes, cgr, g = cg.build(dict(inst, extra_padding=pad), node_cls=fixtures.OracleNode)
+    # base case of the ring invariant: right after init() every slot of every ring (also the spare slots of extra_padding) holds the producer's default output
+    import numpy as _np
+    gs_init = g.init(jax.random.PRNGKey(1))
+    bad0 = []
+    for n_, node_ in nodes.items():
+        if n_ not in gs_init.buffer:
+            continue
+        dflt = _np.asarray(node_.init_output(jax.random.PRNGKey(0)).y)
+        buf = _np.asarray(gs_init.buffer[n_].y)
+        if not all(_np.array_equal(buf[i], dflt) for i in range(buf.shape[0])):
+            bad0.append((n_, buf.tolist()))
+    obs.append(Ob("ring: base case -- after init() every slot of every output ring buffer holds the producer's default output", "unsat" if not bad0 else "sat", 0, cfg,
+                  trivial=True, replayed=True, key="ring-init", detail=str(bad0[:2]),
+                  what=f"Graph.init leaves ring-buffer slots that do not hold the default output (padding {pad}): {bad0[:1]} -- a not-yet-filled window entry (seq < 0) then reads a wrong payload"))
     gs0 = g.init(jax.random.PRNGKey(1))
     sup = g.supervisor.name
     per_kind, uniform, n_gen = cg.slot_order(g)
@@ -273,6 +287,9 @@ def configs(tier):
                     inst2.append(dict(kind="two", rate1=r1, rate2=r2, window12=w, window21=max(1, 3 - w), ts_max=0.4, mode=m,
                                       extra_padding=pad))
     inst2.append(dict(kind="two", rate1=10, rate2=20, window12=2, window21=1, ts_max=0.4, mode="mcs", trainable=True, tmax=0.06))
+    if tier == "quick":  # spare slots (extra_padding) in the whole-rollout instances as well
+        inst2 += [dict(kind="two", rate1=10, rate2=20, window12=3, window21=1, ts_max=0.4, mode="mcs", extra_padding=1),
+                  dict(kind="two", rate1=20, rate2=30, window12=1, window21=2, ts_max=0.4, mode="generational", extra_padding=2)]
     # user-supplied (larger than minimal) buffer sizes
     inst2.append(dict(kind="two", rate1=10, rate2=20, window12=3, window21=1, ts_max=0.4, mode="mcs", buffer_sizes={"node2": 7, "node1": [3]}))
     inst2.append(dict(kind="two", rate1=10, rate2=20, window12=2, window21=1, ts_max=0.4, mode="mcs", num_episodes=2, seed=3))
